@@ -2,7 +2,7 @@
 # tools/silence_run.sh <seed> [tier]: every check once on the unchanged tree; one line per check
 SEED="$1"; TIER="${2:-quick}"
 cd /verif
-for id in C01 C02 C03 C04 C05 C06 C07 C08 C09 C10 C11 C12 C13 C14 C15 C16 C17 C18 C19 C20; do
+for id in ${VERIF_IDS:-C01 C02 C03 C04 C05 C06 C07 C08 C09 C10 C11 C12 C13 C14 C15 C16 C17 C18 C19 C20}; do
   t0=$(date +%s)
   out=$(VERIF_SEED=$SEED ./check $id $TIER 2>&1); rc=$?
   t1=$(date +%s)
